@@ -1,6 +1,7 @@
 import XpmVerif.Model.Sched
 import XpmVerif.Generated.SchedFlags
 import XpmVerif.Proofs.SchedFail
+import XpmVerif.Proofs.SchedTerm
 /-! C07: "Failures are contained: dependents are cancelled, others still run."
 
     All theorems are about every state of the scheduler model `Model/Sched.lean` reachable by ANY list of
@@ -10,7 +11,8 @@ import XpmVerif.Proofs.SchedFail
     two repairs are not needed here).  One invariant (`Proofs/SchedFail.lean`, `Inv2`, on top of `Inv` of
     C04) preserved by every callback and every event. -/
 namespace XpmVerif.C07
-open XpmVerif.Sched XpmVerif.SchedDeps XpmVerif.SchedFail
+open XpmVerif.Sched hiding flOK Reachable
+open XpmVerif.SchedDeps XpmVerif.SchedFail
 
 /-- obligation on the current source: the three scheduler repairs are present. -/
 theorem scheduler_flags : Gen.schedFlags = { readyGuarded := true, resubmitRegisters := true, abortRechecks := true } := by decide
@@ -163,6 +165,57 @@ theorem wait_returned_no_failure {fl : Flags} (hfl : fl.readyGuarded = true) {to
   rw [h3'] at this
   exact absurd (this.mpr hne) (by simp)
 
+/-- `every_transitive_dependent_ends_in_error` (the containment closes transitively, and it is reached): under the
+    hypotheses of `C06.every_maximal_run_ends_all_final` (all four repairs; a state reachable by well-formed events
+    in which no job names a token twice and every request fits; a run of enabled `step` / `deliver` events that cannot
+    be extended — every such run is finite, `C06.every_run_finite`), in the last state `s'` every scheduled job `j`
+    (`pc ≠ none`, i.e. not a duplicate submission replaced by the job registered under its identifier) that depends
+    transitively on a failed job (`Blocked s' j`: a chain of job dependencies to a job in state `error`, no
+    intermediate job having a success marker) was never launched and has returned: with result ERROR, record state
+    `error` and `failedDep` — unless `j`'s own success marker existed, in which case it returned DONE. -/
+theorem every_transitive_dependent_ends_in_error {fl : Flags} (hg : fl.readyGuarded = true)
+    (hf : fl.resubmitRegisters = true) (ha : fl.abortRechecks = true) (hr : fl.abortReleases = true)
+    {totals : List Nat} {s : St} (h : SchedFinal.Reachable fl totals s) (hnd : SchedFinal.NoDoubleTok s)
+    (hfit : SchedFinal.TokFit s) (evs : List Ev) (hrun : SchedFinal.RunOK fl s evs)
+    (hmax : ∀ ev, ¬ SchedFinal.Enabled (evs.foldl (St.apply fl) s) ev) (j : Nat)
+    (hs : ((evs.foldl (St.apply fl) s).jobs j).pc ≠ .none) (hb : Blocked (evs.foldl (St.apply fl) s) j) :
+    ((evs.foldl (St.apply fl) s).jobs j).launches = 0 ∧
+    ((((evs.foldl (St.apply fl) s).jobs j).marker = true ∧ ((evs.foldl (St.apply fl) s).jobs j).pc = .finished .done) ∨
+     (((evs.foldl (St.apply fl) s).jobs j).marker = false ∧ ((evs.foldl (St.apply fl) s).jobs j).pc = .finished .error ∧
+      ((evs.foldl (St.apply fl) s).jobs j).state = .error ∧ ((evs.foldl (St.apply fl) s).jobs j).failedDep = true)) := by
+  obtain ⟨hR, -, -⟩ := SchedFinal.run_bound hg hf ha hr evs s h hnd hrun
+  have hq := SchedFinal.quiescent_of_not_enabled _ hmax
+  have hall := SchedFinal.quiescent_final hg hf ha hR hq.1 hq.2 (SchedFinal.tokFit_run fl evs s hrun hfit)
+  generalize evs.foldl (St.apply fl) s = s' at hR hq hall hs hb ⊢
+  -- the same state in the vocabulary of `SchedFail`
+  have hOK : ReachableOK fl totals s' := by
+    clear hq hall hs hb
+    induction hR with
+    | init => exact .init
+    | @next s0 ev _ hev ih =>
+      refine .step ev ih ?_
+      cases ev <;> exact hev
+  have hl : (s'.jobs j).launches = 0 := (all_of_reachableOK hg hOK).blocked_not_launched hb
+  have hjn : j < s'.n := by
+    apply Classical.byContradiction
+    intro hn
+    exact hs ((SchedFinal.reachable_invA hg hR).blank j (by omega))
+  have hloc := (SchedFinal.reachable_invA hg hR).loc j
+  refine ⟨hl, ?_⟩
+  rcases hall j hjn with e | ⟨r, e⟩
+  · exact absurd e hs
+  · have hfin := SchedFinal.jlocal_final hloc e
+    rcases hfin.1 with hd | he
+    · left
+      rcases (SchedFinal.jlocal_done_iff hloc e).1 hd with hm | ⟨h1, -⟩
+      · exact ⟨hm, by rw [e, hd]⟩
+      · omega
+    · right
+      obtain ⟨hm, hx⟩ := (SchedFinal.jlocal_error_iff hloc e).1 he
+      rcases hx with ⟨h1, -⟩ | ⟨-, hfd⟩
+      · omega
+      · exact ⟨hm, by rw [e, he], by rw [hfin.2, he], hfd⟩
+
 /-! ### the hypotheses are satisfiable: job 0 fails, job 1 depends on it, job 2 is independent -/
 
 example : ReachableOK flOK [] failS := reachableOK_of_allOKb flOK [] failEvs (by decide)
@@ -176,5 +229,32 @@ example : (failS.jobs 0).state = .error ∧ (failS.jobs 0).launches = 1 ∧ (fai
 example : (failS.jobs 0).pc = .finished .error ∧ (failS.jobs 1).pc = .finished .error := by decide
 /-- hypotheses of `wait_reports_failure`: the next callback completes the waiter, which raises. -/
 example : failS.waiter = .notified ∧ (failS.step flOK).waiter = .raised ∧ (failS.step flOK).failed = [0, 1] := by decide
+
+/-! ### a chain 0 ← 1 ← 2: job 0 fails, jobs 1 and 2 are cancelled transitively, the run ends -/
+
+/-- the three submissions, then the complete run (17 events) to quiescence. -/
+def chainSubs : List Ev := [.submit 0 [] 1 false, .submit 1 [.job 0] 0 false, .submit 2 [.job 1] 0 false]
+def chainRun : List Ev := [.step, .deliver 0, .step, .deliver 0, .step, .deliver 0, .step, .deliver 0, .step, .step,
+  .step, .deliver 0, .step, .step, .step, .deliver 0, .step]
+def chainS : St := SchedFinal.runEvs SchedFinal.flOK [] chainSubs
+
+/-- hypotheses of `every_transitive_dependent_ends_in_error` on the chain … -/
+example : SchedFinal.Reachable SchedFinal.flOK [] chainS := SchedFinal.reachable_runEvs chainSubs (by decide)
+example : SchedFinal.NoDoubleTok chainS := SchedFinal.noDoubleTok_runEvs rfl [] _ (by decide) (by decide)
+example : SchedFinal.TokFit chainS := SchedFinal.tokFit_runEvs SchedFinal.flOK [] chainSubs (by decide)
+example : SchedFinal.RunOK SchedFinal.flOK chainS chainRun := SchedFinal.runOK_of_b _ _ _ (by decide)
+example : (chainRun.foldl (St.apply SchedFinal.flOK) chainS).ready = [] ∧
+    (chainRun.foldl (St.apply SchedFinal.flOK) chainS).threads = [] := by decide
+example : Blocked (chainRun.foldl (St.apply SchedFinal.flOK) chainS) 2 :=
+  .via { origin := .job 1, cur := .fail } 1 (by decide) rfl
+    (.direct { origin := .job 0, cur := .fail } 0 (by decide) rfl (by decide)) (by decide)
+/-- … and its conclusion: job 0 ran and failed, jobs 1 and 2 were never launched and returned ERROR with `failedDep`. -/
+example : ((chainRun.foldl (St.apply SchedFinal.flOK) chainS).jobs 0).launches = 1 ∧
+    ((chainRun.foldl (St.apply SchedFinal.flOK) chainS).jobs 0).pc = .finished .error ∧
+    ((chainRun.foldl (St.apply SchedFinal.flOK) chainS).jobs 1).pc = .finished .error ∧
+    ((chainRun.foldl (St.apply SchedFinal.flOK) chainS).jobs 1).launches = 0 ∧
+    ((chainRun.foldl (St.apply SchedFinal.flOK) chainS).jobs 2).pc = .finished .error ∧
+    ((chainRun.foldl (St.apply SchedFinal.flOK) chainS).jobs 2).launches = 0 ∧
+    ((chainRun.foldl (St.apply SchedFinal.flOK) chainS).jobs 2).failedDep = true := by decide
 
 end XpmVerif.C07
